@@ -231,6 +231,7 @@ func runC05(r *core.Run) {
 		y := refcrypto.YHex(t.coin.Secret)
 		// in-flight observation inside the pay call
 		inflightSeen := false
+		env.Node.InPayNotFound = (ji/2)%2 == 0 // the backend may not know the payment yet while the pay call runs
 		env.Node.InPay = func(hash string) {
 			if hash != t.hash {
 				return
